@@ -20,13 +20,45 @@ Inductive ty :=
 | TTuple (ts: list ty)          (* Tuple[t1, .., tn]; [] is Tuple[()] *)
 | TUnion (ts: list ty)          (* Union[...] / Optional[...] as flattened by typing *)
 | TClass (c: string)            (* a dataclass of the class table *)
-| TNamed (as_dict: bool) (names: list string) (ts: list ty) (ds: list (option js)).
+| TNamed (as_dict: bool) (names: list string) (ts: list ty) (ds: list (option js))
                                 (* NamedTuple: field names, field types, rendered defaults (None = no default);
                                    as_dict = namedtuple_as_dict / serialize="as_dict" in force *)
+| TLeaf (tp: string) (fmt pat: option string)
+                                (* leaf types rendered as {"type": tp, "format": fmt, "pattern": pat}: datetime/date/time,
+                                   timedelta, timezone, ZoneInfo, UUID, ip*, Decimal, Fraction, bytes, paths *)
+| TEnum (lit: bool) (vals: list js)
+                                (* Enum (member values) / Literal (lit = true: one value gives "const") *)
+| TTyped (names: list string) (ts: list ty) (req: list bool)
+                                (* TypedDict: keys, value types, key is required *)
+| TOpaque (n: string).          (* a third-party class: no schema creator applies (NotImplementedError) unless its
+                                   serialization is overridden by a strategy *)
 
 (* one init-field of a dataclass: key used in "properties" (alias or name), type,
    "has neither default nor default_factory", rendered default (None = MISSING) *)
-Record fld := mkfld { f_alias: string; f_ty: ty; f_req: bool; f_default: option js }.
+Record fld := mkfld { f_alias: string; f_ty: ty; f_req: bool; f_default: option js; f_descr: option string }.
+
+(* ---- Instance.fields() / Instance.alias: from the dataclass fields as written to the records above ---- *)
+Inductive rdef := RNone | RDefault (rendered: js) | RFactory.
+(* an overridden serialization method (get_overridden_serialization_method): pass_through, one of the basic types
+   str/int/float/bool, a callable with its return annotation (None: not annotated), or a strategy that has no
+   "serialize" part (skipped) *)
+Inductive ov := OPass | OBasic (t: ty) | ORet (t: option ty) | ODeser.
+Record rfld := mkrfld {
+  r_name: string; r_meta_alias: option string;   (* field(metadata={"alias": ..}) / field_options(alias=..) *)
+  r_ann_alias: option string;                     (* the last Annotated[.., Alias(..)] *)
+  r_ty: ty; r_final: bool;                        (* the annotation is Final[r_ty] *)
+  r_init: bool; r_def: rdef; r_descr: option string;
+  r_ser: option ov;                               (* field option "serialize" *)
+  r_strat: option ov }.                           (* field option "serialization_strategy" *)
+Record rcls := mkrcls { rc_aliases: list (string * string);   (* Config.aliases *)
+                        rc_dial_omit_none: option bool;        (* Config.dialect.omit_none, if the dialect sets it *)
+                        rc_omit_none: option bool;             (* Config.omit_none, if set *)
+                        rc_dialect: list (string * ov);        (* Config.dialect.serialization_strategy, by type key *)
+                        rc_strats: list (string * ov);         (* Config.serialization_strategy, by type key *)
+                        rc_fields: list rfld }.
+
+Definition first_some {A} (a b: option A) : option A := match a with Some _ => a | None => b end.
+
 Definition ctab := list (string * list fld).
 Definition defs := list (string * js).        (* Context.definitions, insertion ordered *)
 
@@ -47,63 +79,166 @@ Fixpoint aset {A} (l: list (string * A)) (k: string) (v: A) : list (string * A) 
 
 Definition keys {A} (l: list (string * A)) : list string := map fst l.
 
+(* alias = metadata alias, else Annotated Alias, else Config.aliases[name], else name; an empty alias is ignored
+   (`if f_instance.alias: f_name = f_instance.alias`); fields with init=False are skipped; required = neither default nor
+   default_factory; a default is rendered only for an explicit default (not for a factory) *)
+(* ---- on_type_with_overridden_serialization as a rewriting of the field type ----
+   Domain of this clause (ov_domain below): a replacement type mentions no overridden key and no third-party class, and a
+   FIELD-level replacement type has no element positions (the implementation re-applies a field-level override to the
+   derived element types: known finding field-override-container).  Strategies are looked up by the exact type
+   (scalars and third-party classes carry a key); the first source that has a "serialize" part wins:
+   field "serialize" option, field strategy, Config.dialect, Config. *)
+Definition tykey (t: ty) : option string :=
+  match t with
+  | TInt => Some "int" | TFloat => Some "float" | TBool => Some "bool" | TStr => Some "str" | TOpaque n => Some n
+  | _ => None
+  end.
+Fixpoint first_ser (l: list (option ov)) : option ov :=
+  match l with
+  | [] => None
+  | Some ODeser :: r | None :: r => first_ser r
+  | Some o :: _ => Some o
+  end.
+Definition apply_ov (o: option ov) (t: ty) : option ty :=   (* None: no replacement, go on with the creators *)
+  match o with
+  | Some (OBasic b) => Some b
+  | Some (ORet (Some t')) => Some t'
+  | Some (ORet None) => Some TAny
+  | _ => None
+  end.
+Definition table_ov (dial conf: list (string * ov)) (t: ty) : option ov :=
+  match tykey t with
+  | Some k => first_ser [lookup k dial; lookup k conf]
+  | None => None
+  end.
+(* every position below a field (not inside another dataclass: the owner changes there) *)
+Fixpoint resolve_ty (dial conf: list (string * ov)) (t: ty) {struct t} : ty :=
+  match apply_ov (table_ov dial conf t) t with
+  | Some t' => t'
+  | None =>
+    match t with
+    | TList a => TList (resolve_ty dial conf a)
+    | TSet a => TSet (resolve_ty dial conf a)
+    | TWrap a => TWrap (resolve_ty dial conf a)
+    | TDict a => TDict (resolve_ty dial conf a)
+    | TTuple ts => TTuple (map (resolve_ty dial conf) ts)
+    | TUnion ts => TUnion (map (resolve_ty dial conf) ts)
+    | TNamed a n ts d => TNamed a n (map (resolve_ty dial conf) ts) d
+    | TTyped n ts r => TTyped n (map (resolve_ty dial conf) ts) r
+    | _ => t
+    end
+  end.
+Definition resolve_field (dial conf: list (string * ov)) (r: rfld) : ty :=
+  match first_ser [r.(r_ser); r.(r_strat)] with
+  | Some OPass => r.(r_ty)        (* pass_through from the field: every derived position sees it again; no table lookup *)
+  | Some o => match apply_ov (Some o) r.(r_ty) with Some t' => t' | None => resolve_ty dial conf r.(r_ty) end
+  | None => resolve_ty dial conf r.(r_ty)
+  end.
+
+(* CodeBuilder.is_field_nullable for a field without default: Annotated / Final are looked through (Final is the
+   field flag, Annotated carries only aliases here), then Any / None / a Union with a None member; a NewType is not *)
+Definition nullable_ty (t: ty) : bool :=
+  match t with
+  | TAny | TNone => true
+  | TUnion ts => existsb (fun x => match x with TNone => true | _ => false end) ts
+  | _ => false
+  end.
+
+(* required = neither default nor factory, and not (omit_none in force and the field nullable): with omit_none the
+   serializer drops the key of a nullable field holding None *)
+Definition digest_field (aliases: list (string * string)) (omit_none: bool) (dial conf: list (string * ov)) (r: rfld) : option fld :=
+  if r.(r_init) then
+    let a := match first_some r.(r_meta_alias) (first_some r.(r_ann_alias) (lookup r.(r_name) aliases)) with
+             | Some a => a | None => r.(r_name) end in
+    Some (mkfld (match a with EmptyString => r.(r_name) | _ => a end) (resolve_field dial conf r)
+                (match r.(r_def) with RNone => negb (omit_none && nullable_ty r.(r_ty)) | _ => false end)
+                (match r.(r_def) with RDefault v => Some v | _ => None end) r.(r_descr))
+  else None.
+Fixpoint digest_fields (aliases: list (string * string)) (omit_none: bool) (dial conf: list (string * ov)) (l: list rfld) : list fld :=
+  match l with
+  | [] => []
+  | r :: t => match digest_field aliases omit_none dial conf r with
+              | Some f => f :: digest_fields aliases omit_none dial conf t | None => digest_fields aliases omit_none dial conf t end
+  end.
+(* get_dialect_or_config_option("omit_none", False): Config.dialect first, then Config *)
+Definition eff_omit_none (c: rcls) : bool :=
+  match first_some c.(rc_dial_omit_none) c.(rc_omit_none) with Some b => b | None => false end.
+Definition digest_tab (E: list (string * rcls)) : ctab :=
+  map (fun c => (fst c, digest_fields (snd c).(rc_aliases) (eff_omit_none (snd c)) (snd c).(rc_dialect) (snd c).(rc_strats)
+                                      (snd c).(rc_fields))) E.
+
 (* ---- one JSONSchema object (children already rendered); to_dict order = field order of
         the JSONSchema dataclass, None fields omitted (Config.omit_none) ---- *)
 Record sk := mk_sk {
-  k_schema: option string; k_type: option string; k_title: option string;
+  k_schema: option string; k_type: option string; k_enum: option (list js); k_const: option js; k_format: option string;
+  k_title: option string; k_description: option string;
   k_anyOf: option (list js); k_ref: option string; k_defs: option defs;
   k_default: option js; k_props: option (list (string * js)); k_addl: option js;
-  k_pnames: option js; k_prefix: option (list js); k_items: option js;
+  k_pnames: option js; k_prefix: option (list js); k_items: option js; k_pattern: option string;
   k_maxItems: option Z; k_minItems: option Z; k_unique: option bool;
   k_required: option (list string) }.
 
-Definition sk0 : sk := mk_sk None None None None None None None None None None None None None None None None.
+Definition sk0 : sk := mk_sk None None None None None None None None None None None None None None None None None None None None None.
 
 Definition optkv {A} (k: string) (f: A -> js) (o: option A) : list (string * js) :=
   match o with Some a => [(k, f a)] | None => [] end.
 
 Definition render (r: sk) : js :=
-  JObj (optkv "$schema" JStr r.(k_schema) ++ optkv "type" JStr r.(k_type) ++ optkv "title" JStr r.(k_title)
+  JObj (optkv "$schema" JStr r.(k_schema) ++ optkv "type" JStr r.(k_type) ++ optkv "enum" JArr r.(k_enum)
+        ++ optkv "const" (fun d => d) r.(k_const) ++ optkv "format" JStr r.(k_format)
+        ++ optkv "title" JStr r.(k_title) ++ optkv "description" JStr r.(k_description)
         ++ optkv "anyOf" JArr r.(k_anyOf) ++ optkv "$ref" JStr r.(k_ref) ++ optkv "$defs" JObj r.(k_defs)
         ++ optkv "default" (fun d => d) r.(k_default) ++ optkv "properties" JObj r.(k_props)
         ++ optkv "additionalProperties" (fun d => d) r.(k_addl) ++ optkv "propertyNames" (fun d => d) r.(k_pnames)
         ++ optkv "prefixItems" JArr r.(k_prefix) ++ optkv "items" (fun d => d) r.(k_items)
+        ++ optkv "pattern" JStr r.(k_pattern)
         ++ optkv "maxItems" JInt r.(k_maxItems) ++ optkv "minItems" JInt r.(k_minItems)
         ++ optkv "uniqueItems" JBool r.(k_unique)
         ++ optkv "required" (fun l => JArr (map JStr l)) r.(k_required))%list.
 
 Definition set_type (s: sk) (t: string) : sk :=
-  mk_sk s.(k_schema) (Some t) s.(k_title) s.(k_anyOf) s.(k_ref) s.(k_defs) s.(k_default) s.(k_props) s.(k_addl)
-        s.(k_pnames) s.(k_prefix) s.(k_items) s.(k_maxItems) s.(k_minItems) s.(k_unique) s.(k_required).
+  mk_sk s.(k_schema) (Some t) s.(k_enum) s.(k_const) s.(k_format) s.(k_title) s.(k_description) s.(k_anyOf) s.(k_ref) s.(k_defs) s.(k_default) s.(k_props) s.(k_addl) s.(k_pnames) s.(k_prefix) s.(k_items) s.(k_pattern) s.(k_maxItems) s.(k_minItems) s.(k_unique) s.(k_required).
 Definition set_default (s: sk) (d: option js) : sk :=
   match d with
   | None => s
   | Some _ =>
-    mk_sk s.(k_schema) s.(k_type) s.(k_title) s.(k_anyOf) s.(k_ref) s.(k_defs) d s.(k_props) s.(k_addl)
-          s.(k_pnames) s.(k_prefix) s.(k_items) s.(k_maxItems) s.(k_minItems) s.(k_unique) s.(k_required)
+    mk_sk s.(k_schema) s.(k_type) s.(k_enum) s.(k_const) s.(k_format) s.(k_title) s.(k_description) s.(k_anyOf) s.(k_ref) s.(k_defs) d s.(k_props) s.(k_addl) s.(k_pnames) s.(k_prefix) s.(k_items) s.(k_pattern) s.(k_maxItems) s.(k_minItems) s.(k_unique) s.(k_required)
+  end.
+(* description = f_instance.metadata.get("description"); if description: f_schema.description = description *)
+Definition set_description (s: sk) (d: option string) : sk :=
+  match d with
+  | None | Some EmptyString => s
+  | Some _ =>
+    mk_sk s.(k_schema) s.(k_type) s.(k_enum) s.(k_const) s.(k_format) s.(k_title) d s.(k_anyOf) s.(k_ref) s.(k_defs) s.(k_default) s.(k_props) s.(k_addl) s.(k_pnames) s.(k_prefix) s.(k_items) s.(k_pattern) s.(k_maxItems) s.(k_minItems) s.(k_unique) s.(k_required)
   end.
 Definition set_defs (s: sk) (d: defs) : sk :=
-  mk_sk s.(k_schema) s.(k_type) s.(k_title) s.(k_anyOf) s.(k_ref) (Some d) s.(k_default) s.(k_props) s.(k_addl)
-        s.(k_pnames) s.(k_prefix) s.(k_items) s.(k_maxItems) s.(k_minItems) s.(k_unique) s.(k_required).
+  mk_sk s.(k_schema) s.(k_type) s.(k_enum) s.(k_const) s.(k_format) s.(k_title) s.(k_description) s.(k_anyOf) s.(k_ref) (Some d) s.(k_default) s.(k_props) s.(k_addl) s.(k_pnames) s.(k_prefix) s.(k_items) s.(k_pattern) s.(k_maxItems) s.(k_minItems) s.(k_unique) s.(k_required).
 Definition set_schema (s: sk) (u: string) : sk :=
-  mk_sk (Some u) s.(k_type) s.(k_title) s.(k_anyOf) s.(k_ref) s.(k_defs) s.(k_default) s.(k_props) s.(k_addl)
-        s.(k_pnames) s.(k_prefix) s.(k_items) s.(k_maxItems) s.(k_minItems) s.(k_unique) s.(k_required).
+  mk_sk (Some u) s.(k_type) s.(k_enum) s.(k_const) s.(k_format) s.(k_title) s.(k_description) s.(k_anyOf) s.(k_ref) s.(k_defs) s.(k_default) s.(k_props) s.(k_addl) s.(k_pnames) s.(k_prefix) s.(k_items) s.(k_pattern) s.(k_maxItems) s.(k_minItems) s.(k_unique) s.(k_required).
 
 Definition ty_sk (t: string) : sk := set_type sk0 t.
+Definition leaf_sk (t: string) (fmt pat: option string) : sk :=
+  mk_sk None (Some t) None None fmt None None None None None None None None None None None pat None None None None.
+(* Enum: enum = member values; Literal: const for one value, else enum *)
+Definition enum_sk (lit: bool) (vals: list js) : sk :=
+  match lit, vals with
+  | true, [v] => mk_sk None None None (Some v) None None None None None None None None None None None None None None None None None
+  | _, _ => mk_sk None None (Some vals) None None None None None None None None None None None None None None None None None None
+  end.
 Definition arr_sk (items: option js) (unique: option bool) : sk :=
-  mk_sk None (Some "array") None None None None None None None None None items None None unique None.
+  mk_sk None (Some "array") None None None None None None None None None None None None None items None None None unique None.
 Definition tuple_sk (prefix: list js) : sk :=
   match prefix with
-  | [] => mk_sk None (Some "array") None None None None None None None None None None (Some 0%Z) None None None
+  | [] => mk_sk None (Some "array") None None None None None None None None None None None None None None None (Some 0%Z) None None None
   | _ => let n := Z.of_nat (List.length prefix) in
-         mk_sk None (Some "array") None None None None None None None None (Some prefix) None (Some n) (Some n) None None
+         mk_sk None (Some "array") None None None None None None None None None None None None (Some prefix) None None (Some n) (Some n) None None
   end.
 Definition dict_sk (addl: option js) : sk :=
-  mk_sk None (Some "object") None None None None None None addl (Some (render (ty_sk "string"))) None None None None None None.
+  mk_sk None (Some "object") None None None None None None None None None None addl (Some (render (ty_sk "string"))) None None None None None None None.
 Definition union_sk (l: list js) : sk :=
-  mk_sk None None None (Some l) None None None None None None None None None None None None.
+  mk_sk None None None None None None None (Some l) None None None None None None None None None None None None None.
 Definition ref_sk (r: string) : sk :=
-  mk_sk None None None None (Some r) None None None None None None None None None None None.
+  mk_sk None None None None None None None None (Some r) None None None None None None None None None None None None.
 (* NamedTuple, list form: JSONArraySchema(prefixItems=items or None, maxItems=n or None, minItems=n or None) *)
 Definition ntuple_sk (prefix: list js) : sk :=
   match prefix with
@@ -112,19 +247,41 @@ Definition ntuple_sk (prefix: list js) : sk :=
   end.
 (* NamedTuple, dict form: JSONObjectSchema(properties=props or None, required=list(fields), additionalProperties=False) *)
 Definition ntobj_sk (props: list (string * js)) (req: list string) : sk :=
-  mk_sk None (Some "object") None None None None None
-        (match props with [] => None | _ => Some props end) (Some (JBool false)) None None None None None None
-        (Some req).
+  mk_sk None (Some "object") None None None None None None None None None (match props with [] => None | _ => Some props end) (Some (JBool false)) None None None None None None None (Some req).
 
-Definition obj_sk (title: string) (props: list (string * js)) (req: list string) : sk :=
-  mk_sk None (Some "object") (Some title) None None None None
-        (match props with [] => None | _ => Some props end) (Some (JBool false)) None None None None None None
-        (match req with [] => None | _ => Some req end).
+(* dataclass (title = class name) and TypedDict (no title): properties or None, additionalProperties False, required or None *)
+Definition obj_sk (title: option string) (props: list (string * js)) (req: list string) : sk :=
+  mk_sk None (Some "object") None None None title None None None None None (match props with [] => None | _ => Some props end) (Some (JBool false)) None None None None None None None (match req with [] => None | _ => Some req end).
+
+Definition formats : list string :=
+  ["date-time"; "date"; "time"; "duration"; "email"; "idn-email"; "hostname"; "idn-hostname"; "ipv4"; "ipv6"; "uri";
+   "uri-reference"; "iri"; "iri-reference"; "uuid"; "uri-template"; "json-pointer"; "relative-json-pointer"; "regex";
+   "time-delta"; "time-zone"; "ipv4network"; "ipv6network"; "ipv4interface"; "ipv6interface"; "decimal"; "fraction";
+   "base64"; "path"].
+
+Definition is_type_name (s: string) : bool :=
+  String.eqb s "null" || String.eqb s "boolean" || String.eqb s "object" || String.eqb s "array"
+  || String.eqb s "number" || String.eqb s "string" || String.eqb s "integer".
 
 Fixpoint str_mem (s: string) (l: list string) : bool :=
   match l with [] => false | x :: r => String.eqb x s || str_mem s r end.
 Fixpoint str_nodup (l: list string) : bool :=
   match l with [] => true | x :: r => negb (str_mem x r) && str_nodup r end.
+
+(* sorted(required_keys): insertion sort by code points (= byte order of UTF-8) *)
+Fixpoint insert_str (x: string) (l: list string) : list string :=
+  match l with
+  | [] => [x]
+  | y :: r => if String.leb x y then x :: y :: r else y :: insert_str x r
+  end.
+Fixpoint isort (l: list string) : list string :=
+  match l with [] => [] | x :: r => insert_str x (isort r) end.
+Fixpoint req_keys (names: list string) (req: list bool) : list string :=
+  match names, req with
+  | n :: ns, true :: rs => n :: req_keys ns rs
+  | _ :: ns, false :: rs => req_keys ns rs
+  | _, _ => []
+  end.
 
 (* _get_schema_or_none looks at the class of the RESULT (EmptyJSONSchema), which a wrapper passes through *)
 Fixpoint is_any (t: ty) : bool := match t with TAny => true | TWrap a => is_any a | _ => false end.
@@ -163,7 +320,7 @@ Section Fields.
     | f :: r =>
         match rec f.(f_ty) st with
         | SOk (s, st1) =>
-            let s' := set_default s f.(f_default) in
+            let s' := set_description (set_default s f.(f_default)) f.(f_descr) in
             fields_fold r (aset props f.(f_alias) (render s'))
                         (if f.(f_req) then (req ++ [f.(f_alias)])%list else req) st1
         | SFuel => SFuel
@@ -217,6 +374,17 @@ Section Gen.
                | SOk (ss, st1) => SOk (if asd then ntobj_sk (combine names ss) names else ntuple_sk ss, st1)
                | SFuel => SFuel | SErr => SErr end
           else SErr
+      | TLeaf tp fmt pat => fun st =>
+          if is_type_name tp && match fmt with Some f => str_mem f formats | None => true end
+          then SOk (leaf_sk tp fmt pat, st) else SErr
+      | TOpaque _ => fun st => SErr
+      | TEnum lit vals => fun st => SOk (enum_sk lit vals, st)
+      | TTyped names ts req => fun st =>
+          if str_nodup names && Nat.eqb (List.length names) (List.length ts)
+          then match map_st on_ty ts [] st with
+               | SOk (ss, st1) => SOk (obj_sk None (combine names ss) (isort (req_keys names req)), st1)
+               | SFuel => SFuel | SErr => SErr end
+          else SErr
       | TClass c => fun st =>
           match fuel with
           | O => SFuel
@@ -226,7 +394,7 @@ Section Gen.
               | Some fs =>
                   match fields_fold (schema_fuel fuel') fs [] [] st with
                   | SOk ((props, req), st1) =>
-                      let obj := obj_sk c props req in
+                      let obj := obj_sk (Some c) props req in
                       if cfg.(c_all_refs)
                       then SOk (ref_sk (cfg.(c_prefix) ++ "/" ++ c), aset st1 c (render obj))
                       else SOk (obj, st1)
@@ -262,7 +430,7 @@ End Gen.
 Fixpoint classes_of (t: ty) : list string :=
   match t with
   | TList a | TSet a | TDict a | TWrap a => classes_of a
-  | TTuple ts | TUnion ts | TNamed _ _ ts _ => (fix go (l: list ty) := match l with [] => [] | x :: r => (classes_of x ++ go r)%list end) ts
+  | TTuple ts | TUnion ts | TNamed _ _ ts _ | TTyped _ ts _ => (fix go (l: list ty) := match l with [] => [] | x :: r => (classes_of x ++ go r)%list end) ts
   | TClass c => [c]
   | _ => []
   end.
@@ -276,6 +444,11 @@ Fixpoint ty_ok (t: ty) : bool :=
   | TNamed _ names ts _ =>
       str_nodup names && Nat.eqb (List.length names) (List.length ts)
       && (fix go (l: list ty) := match l with [] => true | x :: r => ty_ok x && go r end) ts
+  | TTyped names ts _ =>
+      str_nodup names && Nat.eqb (List.length names) (List.length ts)
+      && (fix go (l: list ty) := match l with [] => true | x :: r => ty_ok x && go r end) ts
+  | TLeaf tp fmt _ => is_type_name tp && match fmt with Some f => str_mem f formats | None => true end
+  | TOpaque _ => false
   | _ => true
   end.
 
@@ -314,10 +487,6 @@ Fixpoint refs (d: js) : list string :=
   end.
 
 (* ---- the part of the Draft 2020-12 metaschema that constrains the emitted keywords ---- *)
-Definition is_type_name (s: string) : bool :=
-  String.eqb s "null" || String.eqb s "boolean" || String.eqb s "object" || String.eqb s "array"
-  || String.eqb s "number" || String.eqb s "string" || String.eqb s "integer".
-
 
 Fixpoint all_strs (l: list js) : option (list string) :=
   match l with
